@@ -191,3 +191,4 @@ pub mod c22;
 pub mod c07;
 pub mod c08;
 pub mod c09;
+pub mod c33;
